@@ -7,6 +7,12 @@
 (*   out  the record the program printed for it: chrom, pos, ref, alts,       *)
 (*        snvpos (the SNV positions the program recovered from the            *)
 (*        sequences), filters, gts (-1 for ".")                               *)
+(*   src.assembled  TRUE: the record was written by assemble (its SNVPOS must  *)
+(*        cover the polymorphic columns);  FALSE: a haplotype catalogue whose  *)
+(*        SNVPOS may be absent, '.', incomplete or stale (merged / edited      *)
+(*        files) -- the programs identify the SNVs from REF/ALT all the same.  *)
+(* kind = "run": one whole program run: src / out = the <<chrom, pos, ref,     *)
+(*        alts>> keys of all input / output records in file order.             *)
 (* Sequences are lists of one-character strings.                              *)
 EXTENDS HapCodecOps, TLC, Json, IOUtils
 
@@ -17,13 +23,28 @@ vars == <<l, bad>>
 
 (* kind = "codec": what from_variant_record / encode_haplotypes / format_haplotypes *)
 (* returned for a (random, larger) record; TLC recomputes the codec on it           *)
+(* e.hint = the INFO/SNVPOS annotation the record carried (absent / dot / list of columns, *)
+(* possibly incomplete or stale): the sequence path never depends on it.  e.trusted = what *)
+(* the use_snvpos = True path returned; judged only when the annotation covers the record. *)
 CodecVerdict(e) ==
   LET r == [ref |-> e.ref, alts |-> e.alts]
+      t == e.trusted
   IN  IF e.cols # SnvCols(r) THEN "SnvColsArePolymorphic"
       ELSE IF e.alleles # Alleles(r) THEN "FirstAppearanceNumbering"
       ELSE IF e.matrix # Encode(r) THEN "Encode"
       ELSE IF e.decoded # Rows(r) THEN "RoundTrip"
+      ELSE IF Covers(e.hint, r) /\
+              (~t.ok \/ t.cols # e.hint.cols \/ t.matrix # EncodeOn(r, e.hint.cols) \/ t.decoded # Rows(r))
+           THEN "CoveringSnvposRoundTrips"
       ELSE "ok"
+
+Count(s, x) == Cardinality({i \in DOMAIN s : s[i] = x})
+(* every input record is re-emitted exactly once and nothing else is printed (an aborted run *)
+(* is judged record by record, clause RunAborted)                                            *)
+RunVerdict(e) ==
+  IF e.crashed THEN "ok"
+  ELSE IF \E x \in Range(e.src) \cup Range(e.out) : Count(e.src, x) # Count(e.out, x) THEN "EveryRecordOnce"
+  ELSE "ok"
 
 PairVerdict(e) ==
   LET r  == [ref |-> e.src.ref, alts |-> e.src.alts]
@@ -32,7 +53,7 @@ PairVerdict(e) ==
   IN
   \* the assemble record itself: the SNVs recoverable from its sequences are the
   \* polymorphic subset of the SNVPOS it reports
-  IF e.src.has_snvpos /\ ~(Range(cs) \subseteq Range(e.src.snvpos)) THEN "SnvColsSubsetOfSNVPOS"
+  IF e.src.assembled /\ e.src.has_snvpos /\ ~(Range(cs) \subseteq Range(e.src.snvpos)) THEN "SnvColsSubsetOfSNVPOS"
   ELSE IF \E h \in 1..Len(r.alts) : Len(r.alts[h]) # Len(r.ref) THEN "FixedLength"
   ELSE IF e.prog = "none" THEN "ok"
   ELSE IF e.crashed THEN "RunAborted"
@@ -46,7 +67,8 @@ PairVerdict(e) ==
   ELSE IF \E s \in DOMAIN o.gts : Len(o.gts[s]) = 0 THEN "GenotypeComplete"
   ELSE "ok"
 
-Verdict(e) == IF e.kind = "codec" THEN CodecVerdict(e) ELSE PairVerdict(e)
+Verdict(e) == IF e.kind = "codec" THEN CodecVerdict(e)
+              ELSE IF e.kind = "run" THEN RunVerdict(e) ELSE PairVerdict(e)
 
 Init == l = 1 /\ bad = 0
 Next == /\ l <= Len(Trace)
